@@ -87,7 +87,10 @@ Definition advance (s : st) (pg : list row) : outcome :=
 (* ---- environment: what other clients do between two requests ---- *)
 (* Before every request "now" moves forward (clock + 1).  Modify/Add stamp the row with the current
    clock, so several rows touched without a Tick in between share one fresh timestamp. *)
-Inductive event := Modify (u : nat) | Add (u : nat) | Delete (u : nat) | Tick.
+(* Insert u t: a row that was not there appears with an arbitrary (possibly old) timestamp 1 <= t <= now
+   (restore from backup, clock skew of another API server): outside "fresh now", kept in the model
+   because the final count check exists for exactly this. *)
+Inductive event := Modify (u : nat) | Add (u : nat) | Delete (u : nat) | Tick | Insert (u t : nat).
 
 Definition touch (clock u : nat) (r : row) : row :=
   if uuid r =? u then {| uuid := u; mtime := clock |} else r.
@@ -102,6 +105,8 @@ Definition apply_event (w : world) (e : event) : world :=
   | Add u => if has_uuid db u then w else ({| uuid := u; mtime := clock |} :: db, clock, alive)
   | Delete u => (filter (fun r => negb (uuid r =? u)) db, clock, remove Nat.eq_dec u alive)
   | Tick => (db, S clock, alive)
+  | Insert u t => if has_uuid db u || (t =? 0) || (clock <? t) then w
+                  else ({| uuid := u; mtime := t |} :: db, clock, alive)
   end.
 Definition apply_batch (evs : list event) (w : world) : world :=
   let '(db, clock, alive) := w in fold_left apply_event evs (db, S clock, alive).
@@ -150,3 +155,215 @@ Definition each_collection (fuel n : nat) (f : faults) (evs : list (list event))
   let w := apply_batch (hd [] evs) (db, clock, map uuid db) in
   if is_k (fail_req f) 0 then (RReqErr, [], w, init)
   else pages fuel n f (tl evs) w init 1.
+
+(* ====================== (b) the index readers ====================== *)
+Local Open Scope string_scope.
+Definition LF : ascii := ascii_of_nat 10.
+Definition CR : ascii := ascii_of_nat 13.
+Definition SP : ascii := ascii_of_nat 32.
+
+(* pieces between line feeds; always at least one piece (the part after the last LF, possibly empty) *)
+Fixpoint split_on (sep : ascii) (s : string) : list string :=
+  match s with
+  | EmptyString => [EmptyString]
+  | String c r =>
+    if Ascii.eqb c sep then EmptyString :: split_on sep r
+    else match split_on sep r with
+         | p :: ps => String c p :: ps
+         | [] => [String c EmptyString]   (* unreachable *)
+         end
+  end.
+
+Fixpoint nlen (s : string) : N := match s with EmptyString => 0%N | String _ r => N.succ (nlen r) end.
+(* dropCR *)
+Fixpoint drop_cr (s : string) : string :=
+  match s with
+  | EmptyString => EmptyString
+  | String c EmptyString => if Ascii.eqb c CR then EmptyString else s
+  | String c r => String c (drop_cr r)
+  end.
+
+(* bufio.Scanner with ScanLines and the default buffer: a line (terminated or not) of 65536 bytes or
+   more makes Scan stop with ErrTooLong after the lines before it have been delivered *)
+Definition max_token : N := 65536%N.
+Fixpoint deliver (pieces : list string) : list string * bool (* error *) :=
+  match pieces with
+  | [] => ([], false)
+  | p :: r => if (max_token <=? nlen p)%N then ([], true)
+              else let '(ts, e) := deliver r in (drop_cr p :: ts, e)
+  end.
+(* tokens of a body: the last piece is a token only if it is non-empty (unterminated final line) *)
+Definition scan_lines (body : string) : list string * bool :=
+  let ps := split_on LF body in
+  match rev ps with
+  | EmptyString :: front => deliver (rev front)
+  | _ => deliver ps
+  end.
+
+(* strconv.ParseInt(s, 10, 64) *)
+Definition digit_val (c : ascii) : option N :=
+  let n := N_of_ascii c in if ((48 <=? n) && (n <=? 57))%N then Some (n - 48)%N else None.
+Fixpoint parse_digits (s : string) (acc : N) : option N :=
+  match s with
+  | EmptyString => Some acc
+  | String c r => match digit_val c with Some d => parse_digits r (acc * 10 + d)%N | None => None end
+  end.
+Definition parse_unsigned (s : string) : option N :=
+  match s with EmptyString => None | _ => parse_digits s 0%N end.
+Definition two63 : Z := 9223372036854775808%Z.
+Definition parse_int64 (s : string) : option Z :=
+  match s with
+  | EmptyString => None
+  | String c r =>
+    if Ascii.eqb c "+"%char then
+      match parse_unsigned r with Some n => if (Z.of_N n <? two63)%Z then Some (Z.of_N n) else None | None => None end
+    else if Ascii.eqb c "-"%char then
+      match parse_unsigned r with Some n => if (Z.of_N n <=? two63)%Z then Some (- Z.of_N n)%Z else None | None => None end
+    else
+      match parse_unsigned s with Some n => if (Z.of_N n <? two63)%Z then Some (Z.of_N n) else None | None => None end
+  end.
+(* int64 arithmetic wraps *)
+Definition wrap64 (z : Z) : Z := ((z + two63) mod (2 * two63) - two63)%Z.
+(* "An old version of keepstore is giving us timestamps in seconds" *)
+Definition norm_mtime (m : Z) : Z := if (m <? 1000000000000)%Z then wrap64 (m * 1000000000) else m.
+
+Inductive ierr := ENonTerminalBlank | EFields | EMtime | EScan | ENoEOF.
+
+(* the loop body of KeepService.index over the delivered lines *)
+Fixpoint index_lines (ts : list string) (sawEOF : bool) (acc : list (string * Z)) : ierr + (bool * list (string * Z)) :=
+  match ts with
+  | [] => inr (sawEOF, rev acc)
+  | line :: r =>
+    if sawEOF then inl ENonTerminalBlank
+    else match line with
+         | EmptyString => index_lines r true acc
+         | _ => match split_on SP line with
+                | [d; m] => match parse_int64 m with
+                            | Some z => index_lines r false ((d, norm_mtime z) :: acc)
+                            | None => inl EMtime
+                            end
+                | _ => inl EFields
+                end
+         end
+  end.
+
+(* sdk/go/arvados.KeepService.index on a 200 response with this body *)
+Definition parse_index (body : string) : ierr + list (string * Z) :=
+  let '(ts, scanerr) := scan_lines body in
+  match index_lines ts false [] with
+  | inl e => inl e
+  | inr (sawEOF, entries) =>
+    if scanerr then inl EScan else if sawEOF then inr entries else inl ENoEOF
+  end.
+
+(* keepclient.GetIndex on a 200 response with this body: the reader content, or ErrIncompleteIndex *)
+Fixpoint ends_lflf (s : string) : bool :=
+  match s with
+  | EmptyString => false
+  | String a EmptyString => false
+  | String a (String b EmptyString) => Ascii.eqb a LF && Ascii.eqb b LF
+  | String _ r => ends_lflf r
+  end.
+Fixpoint drop_last (s : string) : string :=
+  match s with
+  | EmptyString => EmptyString
+  | String c EmptyString => EmptyString
+  | String c r => String c (drop_last r)
+  end.
+Definition get_index (body : string) : option string :=
+  if String.eqb body (String LF EmptyString) || ends_lflf body then Some (drop_last body) else None.
+
+(* a well-formed index: lines `locator SP decimal-mtime LF`, then one empty line *)
+Definition render_line (e : string * string) : string := fst e ++ String SP (snd e) ++ String LF EmptyString.
+Definition render_lines (es : list (string * string)) : string := fold_right (fun e acc => render_line e ++ acc) "" es.
+Definition render_index (es : list (string * string)) : string := render_lines es ++ String LF EmptyString.
+
+(* ====================== (c) keepstore handleIndex ====================== *)
+(* one volume: what IndexTo wrote before returning, and whether it returned an error *)
+Record vol_out := { v_text : string; v_ok : bool }.
+Fixpoint handle_index (vols : list vol_out) : string :=
+  match vols with
+  | [] => String LF EmptyString                 (* every volume succeeded: terminating blank line *)
+  | v :: r => if v_ok v then v_text v ++ handle_index r
+              else v_text v                      (* log and return: no terminator *)
+  end.
+
+(* ====================== (d) Balancer.Run: phases and the effect of one failing request ====================== *)
+Local Close Scope string_scope.
+Local Open Scope list_scope.
+(* requests a sweep can make (services, mounts and collection requests are numbered by the harness) *)
+Inductive req :=
+| QKeepServices (page : nat)      (* GET arvados/v1/keep_services *)
+| QMounts (srv : nat)             (* GET <keepstore>/mounts *)
+| QCurrentUser                    (* CheckSanityEarly *)
+| QNullModified                   (* CheckSanityEarly: collections with modified_at = null *)
+| QClearTrash (srv : nat)         (* PUT <keepstore>/trash []  (ClearTrashLists) *)
+| QDiscovery                      (* GetCurrentState *)
+| QIndex (mnt : nat)              (* GET <keepstore>/mounts/<uuid>/blocks *)
+| QCollections (i : nat)          (* EachCollection: count, pages, count *)
+| QPull (srv : nat)               (* PUT <keepstore>/pull  (CommitPulls) *)
+| QTrash (srv : nat).             (* PUT <keepstore>/trash (CommitTrash) *)
+
+Definition req_eqb (a b : req) : bool :=
+  match a, b with
+  | QKeepServices x, QKeepServices y | QMounts x, QMounts y | QClearTrash x, QClearTrash y
+  | QIndex x, QIndex y | QCollections x, QCollections y | QPull x, QPull y | QTrash x, QTrash y => Nat.eqb x y
+  | QCurrentUser, QCurrentUser | QNullModified, QNullModified | QDiscovery, QDiscovery => true
+  | _, _ => false
+  end.
+
+Record sweep_cfg := {
+  s_services : list nat;                 (* disk services *)
+  s_ks_pages : nat;                      (* keep_services list pages *)
+  s_indexed : list nat;                  (* mounts whose index is fetched (one per device) *)
+  s_coll_reqs : nat;                     (* collection requests of a complete scan *)
+  s_clear : bool;                        (* CommitTrash && rendezvous state changed: ClearTrashLists first *)
+  s_commit_pulls : bool;
+  s_commit_trash : bool;
+  s_sane : bool;                         (* CheckSanityLate passes *)
+  s_plan : list (nat * (nat * nat))      (* service -> (#trash, #pull) computed from the complete view *)
+}.
+
+Inductive put := PutTrash (srv items : nat) | PutPull (srv items : nat).
+Definition put_items (p : put) : nat := match p with PutTrash _ n | PutPull _ n => n end.
+Definition is_trash (p : put) : bool := match p with PutTrash _ _ => true | _ => false end.
+
+Fixpoint plan_of (pl : list (nat * (nat * nat))) (s : nat) : nat * nat :=
+  match pl with [] => (0, 0) | (k, v) :: r => if Nat.eqb k s then v else plan_of r s end.
+
+(* the phases before anything is committed, in order; a phase is a set of requests that are all
+   issued (sequentially or concurrently) unless an earlier phase failed *)
+Definition pre_phases (c : sweep_cfg) : list (list req) :=
+  [ map QKeepServices (seq 0 (s_ks_pages c));
+    map QMounts (s_services c);
+    [QCurrentUser]; [QNullModified] ] ++
+  (if s_clear c then [map QClearTrash (s_services c)] else []) ++
+  [ [QDiscovery];
+    map QIndex (s_indexed c) ++ map QCollections (seq 0 (s_coll_reqs c)) ].
+
+(* PUTs sent by a phase *)
+Definition phase_puts (ph : list req) : list put :=
+  flat_map (fun r => match r with QClearTrash s => [PutTrash s 0] | _ => [] end) ph.
+
+(* run the pre-commit phases: the PUTs sent, and whether every phase succeeded *)
+Fixpoint run_pre (fails : req -> bool) (phs : list (list req)) : list put * bool :=
+  match phs with
+  | [] => ([], true)
+  | ph :: r =>
+    if existsb fails ph then (phase_puts ph, false)
+    else let '(ps, ok) := run_pre fails r in (phase_puts ph ++ ps, ok)
+  end.
+
+(* Run: PUT requests received by the keepstores, and whether Run returned nil *)
+Definition sweep (c : sweep_cfg) (fails : req -> bool) : list put * bool :=
+  let '(pre, ok) := run_pre fails (pre_phases c) in
+  if negb ok then (pre, false)
+  else if negb (s_sane c) then (pre, false)
+  else
+    let pulls := if s_commit_pulls c then map (fun s => PutPull s (snd (plan_of (s_plan c) s))) (s_services c) else [] in
+    let pull_failed := s_commit_pulls c && existsb (fun s => fails (QPull s)) (s_services c) in
+    if pull_failed then (pre ++ pulls, false)       (* "Skip trash if we can't pull" *)
+    else
+      let trashes := if s_commit_trash c then map (fun s => PutTrash s (fst (plan_of (s_plan c) s))) (s_services c) else [] in
+      let trash_failed := s_commit_trash c && existsb (fun s => fails (QTrash s)) (s_services c) in
+      (pre ++ pulls ++ trashes, negb trash_failed).
